@@ -262,7 +262,7 @@ func (m *c14Model) isDoneRecv(g *c14Graph, ctx *c14Ctx, e ast.Expr, at *c14Node)
 	if !ok || u.Op != token.ARROW {
 		return false
 	}
-	return m.isMethodOn(g, g.canon(ctx, u.X, at), m.fCtx, "context.Context", "Done")
+	return m.isDoneChan(g, g.canon(ctx, u.X, at))
 }
 
 // selectOf returns the select statement whose communication clause is comm (a statement of activation ctx), or nil.
@@ -466,7 +466,7 @@ func (m *c14Model) scansFor(x *c14Val, at *c14Node) (scans []*c14Scan, why strin
 	g, wf := m.wg, m.wf
 	why = "no loop over the path parameter compares its elements with the member id: on a reference cycle (1→2→1, or the self reference 1→1) the recursion never ends"
 	for _, l := range wf.loops {
-		if !m.isPathParam(g.rangeX(l)) {
+		if !m.pathLike(g, g.rangeX(l), 0) {
 			continue
 		}
 		sc := &c14Scan{loop: l, match: c14Edges{}}
